@@ -612,29 +612,43 @@ var leanCtor = map[string]string{
 	"UnsubAck": "unsuback", "PingReq": "pingreq", "PingResp": "pingresp", "Disconnect": "disconnect", "Auth": "auth",
 }
 
-// the type switch of fixedHeader.ReadRemaining: `switch byte(f.fixed) & 0b1111_0000 { case K: p = &T{fixed: f.fixed} … default: p = &Undefined{} }`
+// the type switch that selects the packet type from the first byte, wherever it lives:
+// `switch byte(X) & 0xf0 { case K: p = &T{fixed: X} | return &T{fixed: X} … default: … &Undefined{} }`
 func dispatchGen(funcs map[string]*ast.FuncDecl) string {
 	bad := func(why string) string {
 		return "def dispatch (b0 : UInt8) : Mq.Packet := (fun (_ : String) => Mq.Packet.undefined { fixed := b0 }) " + leanStr(why) + "\n\n"
 	}
-	fd := funcs["fixedHeader.ReadRemaining"]
-	if fd == nil || fd.Body == nil {
-		return bad("no fixedHeader.ReadRemaining")
-	}
 	var sw *ast.SwitchStmt
-	for _, st := range fd.Body.List {
-		if x, ok := st.(*ast.SwitchStmt); ok {
-			sw = x
-			break
+	var swFn *ast.FuncDecl
+	var keys []string
+	for k := range funcs {
+		keys = append(keys, k)
+	}
+	sort.Strings(keys)
+	for _, k := range keys {
+		fd := funcs[k]
+		if fd.Body == nil {
+			continue
 		}
+		ast.Inspect(fd.Body, func(n ast.Node) bool {
+			x, ok := n.(*ast.SwitchStmt)
+			if !ok || x.Tag == nil || x.Init != nil {
+				return true
+			}
+			if be, ok := x.Tag.(*ast.BinaryExpr); ok && be.Op == token.AND && strings.HasPrefix(exprStr(be.X), "byte(") && len(x.Body.List) >= 15 {
+				if sw == nil {
+					sw = x
+					swFn = fd
+				}
+			}
+			return true
+		})
 	}
-	if sw == nil || sw.Init != nil || sw.Tag == nil {
-		return bad("no switch")
+	if sw == nil {
+		return bad("no type switch on the first byte found")
 	}
-	be, ok := sw.Tag.(*ast.BinaryExpr)
-	if !ok || be.Op != token.AND || exprStr(be.X) != "byte(f.fixed)" {
-		return bad("switch tag " + srcOf(sw.Tag))
-	}
+	be := sw.Tag.(*ast.BinaryExpr)
+	subject := strings.TrimSuffix(strings.TrimPrefix(exprStr(be.X), "byte("), ")")
 	mask, okm := constVal(be.Y)
 	if !okm {
 		return bad("switch mask")
@@ -647,11 +661,22 @@ func dispatchGen(funcs map[string]*ast.FuncDecl) string {
 		if len(cc.Body) != 1 {
 			return bad("case body " + srcOf(cc))
 		}
-		as, ok := cc.Body[0].(*ast.AssignStmt)
-		if !ok || as.Tok != token.ASSIGN || exprStr(as.Lhs[0]) != "p" {
+		rhs := ""
+		switch st := cc.Body[0].(type) {
+		case *ast.AssignStmt:
+			if st.Tok == token.ASSIGN && len(st.Lhs) == 1 && len(st.Rhs) == 1 {
+				if _, ok := st.Lhs[0].(*ast.Ident); ok {
+					rhs = srcOf(st.Rhs[0])
+				}
+			}
+		case *ast.ReturnStmt:
+			if len(st.Results) == 1 {
+				rhs = srcOf(st.Results[0])
+			}
+		}
+		if rhs == "" {
 			return bad("case body " + srcOf(cc))
 		}
-		rhs := srcOf(as.Rhs[0])
 		if cc.List == nil {
 			if rhs != "&Undefined{}" {
 				return bad("default " + rhs)
@@ -663,11 +688,22 @@ func dispatchGen(funcs map[string]*ast.FuncDecl) string {
 			return bad("case list " + srcOf(cc))
 		}
 		k, okk := constVal(cc.List[0])
-		m := regexp.MustCompile(`^&([A-Za-z]+)\{fixed: f\.fixed\}$`).FindStringSubmatch(rhs)
-		if !okk || m == nil || leanCtor[m[1]] == "" {
+		m := regexp.MustCompile(`^&([A-Za-z]+)\{fixed: (.+)\}$`).FindStringSubmatch(rhs)
+		if !okk || m == nil || leanCtor[m[1]] == "" || m[2] != subject {
 			return bad("case " + srcOf(cc))
 		}
 		fmt.Fprintf(&sb, "if b0 &&& %d = %d then Mq.Packet.%s { fixed := b0 }\n  else ", mask, k, leanCtor[m[1]])
+	}
+	if def == "" && swFn != nil {
+		// no default clause: the switch is followed, at the top level of its function, by `return &Undefined{}`
+		body := swFn.Body.List
+		for i, st := range body {
+			if st == ast.Stmt(sw) && i+1 < len(body) {
+				if rs, ok := body[i+1].(*ast.ReturnStmt); ok && len(rs.Results) == 1 && srcOf(rs.Results[0]) == "&Undefined{}" {
+					def = "Mq.Packet.undefined {}"
+				}
+			}
+		}
 	}
 	if def == "" {
 		return bad("no default")
